@@ -76,6 +76,7 @@ type TB struct {
 	ufs        map[string]ufSig
 	vars       []*Term
 	fresh      int
+	apps       []*Term
 	Phase      string
 	PhaseCount map[string]int
 }
@@ -164,7 +165,12 @@ func (b *TB) App(name string, ret int, args ...*Term) *Term {
 	if len(args) == 0 {
 		return b.Var(name, ret)
 	}
-	return b.mk(&Term{Op: OpApp, W: ret, Name: name, Args: args})
+	n := b.next
+	r := b.mk(&Term{Op: OpApp, W: ret, Name: name, Args: args})
+	if r.ID >= n {
+		b.apps = append(b.apps, r)
+	}
+	return r
 }
 
 func (b *TB) Not(x *Term) *Term {
@@ -1022,3 +1028,9 @@ func (b *TB) OpCounts() map[string]int {
 	}
 	return r
 }
+
+// Apps lists the uninterpreted-function applications created so far.
+func (b *TB) Apps() []*Term { return b.apps }
+
+// Vars lists all variables created so far.
+func (b *TB) Vars() []*Term { return b.vars }
